@@ -259,7 +259,7 @@ fn exhaustive(ctx: &Ctx, len: usize) -> SubReport {
         }
     }
     fn muts(cap: usize) -> Vec<Op> {
-        let mut v = vec![Push(1), Push(2), PushForce(3), PushForce(4), Pop, Flush];
+        let mut v = vec![Push(1), Push(0), PushForce(3), PushForce(0), Pop, Flush];
         for i in 0..=cap {
             v.push(GetMutSet(i, 9));
         }
@@ -351,7 +351,7 @@ fn io_program() -> BoxedStrategy<StateSpec> {
 
 fn run_io(st: &StateSpec) -> CaseResult {
     let reg: BTreeSet<String> = crate::exec::registry_names().into_iter().collect();
-    let r = lockstep("C17", st, 200, &reg, &|_| false)?;
+    let r = lockstep("C17", st, 200, &reg, &|_, _| false)?;
     let nexts = st.exec.iter().filter(|x| matches!(x, ItemSpec::Instr(n) if n == "INPUT.NEXT")).count();
     let writes = st.exec.iter().filter(|x| matches!(x, ItemSpec::Instr(n) if n == "OUTPUT.WRITE")).count();
     Ok(CaseOut::new(st.input.len() >= 2 && (nexts >= 1 || writes >= 2) && r.compared_instr >= 3, st.digest())
@@ -365,8 +365,8 @@ pub fn run(ctx: &Ctx) -> PropReport {
     );
     rep.assumptions.push("print order of the buffer is not documented: compared as a multiset".into());
     rep.assumptions.push("OUTPUT.WRITE on a full queue and INPUT.GET on an empty body: only 'nothing fabricated, no crash' is asserted".into());
-    rep.push(exhaustive(ctx, ctx.tier.pick(6, 8)));
-    let n = ctx.tier.pick(6000, 300_000);
+    rep.push(exhaustive(ctx, ctx.tier.pick(6, 7)));
+    let n = ctx.tier.pick(40_000, 400_000);
     rep.push(run_sharded(
         ctx,
         "buffer-random",
@@ -375,7 +375,8 @@ pub fn run(ctx: &Ctx) -> PropReport {
         |(cap, stack, ops): &(usize, bool, Vec<Op>)| run_history(*cap, *stack, ops),
         |(cap, stack, ops)| json!({"cap": cap, "stack": stack, "ops": ops.iter().map(|o| o.to_json()).collect::<Vec<_>>()}),
     ));
-    rep.push(run_sharded(ctx, "io-instructions", ctx.tier.pick(6000, 300_000), io_program, run_io, |s| json!({"state": s.to_json(), "program": s.exec.iter().map(|x| x.render()).collect::<Vec<_>>().join(" ")})));
+    rep.push(run_sharded(ctx, "io-instructions", ctx.tier.pick(40_000, 400_000), io_program, run_io, |s| json!({"state": s.to_json(), "program": s.exec.iter().map(|x| x.render()).collect::<Vec<_>>().join(" ")})));
+    rep.push(crate::props::incontext::run(ctx, ctx.tier.pick(40_000, 600_000)));
     rep
 }
 
